@@ -14,6 +14,25 @@ import (
 // Parser can parse lua statements or expressions
 type Parser struct {
 	scanner Scanner
+	depth   int // current nesting depth of blocks and expressions
+}
+
+// maxSyntaxLevels is the maximum nesting depth of blocks and expressions in a
+// chunk (the parser is recursive, so this bounds the depth of the Go stack).
+const maxSyntaxLevels = 200
+
+// enterLevel must be called when starting to parse a nested block or
+// expression.  It panics with a syntax error at token t if the chunk is nested
+// too deeply.  The caller must defer a call to leaveLevel.
+func (p *Parser) enterLevel(t *token.Token) {
+	p.depth++
+	if p.depth > maxSyntaxLevels {
+		panic(Error{Got: t, msg: "chunk has too many syntax levels"})
+	}
+}
+
+func (p *Parser) leaveLevel() {
+	p.depth--
 }
 
 type Scanner interface {
@@ -24,6 +43,7 @@ type Scanner interface {
 type Error struct {
 	Got      *token.Token
 	Expected string
+	msg      string // if not empty, used instead of "expected ..."
 }
 
 func (e Error) Error() string {
@@ -32,6 +52,8 @@ func (e Error) Error() string {
 		expected = "invalid token: " + expected
 	} else if e.Got.Type == token.UNFINISHED {
 		expected = "unexpected <eof>"
+	} else if e.msg != "" {
+		expected = e.msg
 	} else if expected == "" {
 		expected = "unexpected symbol"
 	} else {
@@ -59,7 +81,7 @@ func ParseExp(scanner Scanner) (exp ast.ExpNode, err error) {
 			}
 		}
 	}()
-	parser := &Parser{scanner}
+	parser := &Parser{scanner: scanner}
 	var t *token.Token
 	exp, t = parser.Exp(parser.Scan())
 	expectType(t, token.EOF, "<eof>")
@@ -79,7 +101,7 @@ func ParseChunk(scanner Scanner) (stat ast.BlockStat, err error) {
 			}
 		}
 	}()
-	parser := &Parser{scanner}
+	parser := &Parser{scanner: scanner}
 	var t *token.Token
 	stat, t = parser.Block(parser.Scan())
 	expectType(t, token.EOF, "<eof>")
@@ -278,6 +300,8 @@ func (p *Parser) FunctionStat(*token.Token) (ast.Stat, *token.Token) {
 // consumed. Returns the token that closes the block (e.g. "end"). So the caller
 // should check that this is the right kind of closing token.
 func (p *Parser) Block(t *token.Token) (ast.BlockStat, *token.Token) {
+	p.enterLevel(t)
+	defer p.leaveLevel()
 	var stats []ast.Stat
 	var next ast.Stat
 	for {
@@ -357,6 +381,8 @@ func (p *Parser) Exp(t *token.Token) (ast.ExpNode, *token.Token) {
 // prefix expression or a power operation (right associatively composed). In
 // other words, any expression that doesn't contain a binary operator.
 func (p *Parser) ShortExp(t *token.Token) (ast.ExpNode, *token.Token) {
+	p.enterLevel(t)
+	defer p.leaveLevel()
 	var exp ast.ExpNode
 	switch t.Type {
 	case token.KwNil:
